@@ -22,7 +22,7 @@ def make_case(i, rng, tier):
     inp, data, recs, fam = common.gen_malformed(rng, i, p_wellformed=0.15)
     s = common.spec("strict", inp["root"], data, inp["cc"], inp["enc"], strict=True)
     w = common.spec("warn", inp["root"], data, inp["cc"], inp["enc"], strict=False)
-    tasks, sched = common.perturb(rng, [s, w], p_by=0.15)
+    tasks, sched = common.perturb(rng, [s, w], p_by=0.15, roots=True)
     return {"input": {"root": inp["root"], "cc": inp["cc"], "enc": inp["enc"], "label": inp["label"], "family": fam, "orig": bytes(inp["data"]).hex()},
             "faults": recs, "tasks": tasks, "schedule": sched}
 
